@@ -5,6 +5,9 @@ pub mod c02;
 pub mod c03;
 pub mod c06;
 pub mod c07;
+pub mod c08;
+pub mod c09;
+pub mod c10;
 pub mod crash;
 
 pub fn dispatch(a: &Args) -> i32 {
@@ -17,6 +20,9 @@ pub fn dispatch(a: &Args) -> i32 {
         "C03" => c03::run(a),
         "C06" => c06::run(a),
         "C07" => c07::run(a),
+        "C08" => c08::run(a),
+        "C09" => c09::run(a),
+        "C10" => c10::run(a),
         "scenarios" => {
             // debug: run every directed scenario and print the outcome
             let mut code = 0;
